@@ -98,6 +98,38 @@ func (env *rEnv) typeOf(n *rNode) types.Type {
 				}
 			}
 		}
+		if n.Text == "callargN" && len(n.Args) == 3 && n.Args[0].Op == "str" {
+			if idx, ok := constIndex(env.eval(n.Args[2])); ok {
+				// the dynamic type of the recorded argument when it is known (generic callees), else the parameter's
+				if k, ok := constIndex(env.eval(n.Args[1])); ok {
+					c := 0
+					for _, ev := range env.post.trace {
+						if ev.Kind == "call:"+n.Args[0].Text {
+							if c == k && idx < len(ev.Args) {
+								if iv, ok := ev.Args[idx].(VIface); ok && iv.Typ != nil {
+									return iv.Typ
+								}
+							}
+							c++
+						}
+					}
+				}
+				if fn := env.e.findByShort(n.Args[0].Text); fn != nil && idx < len(fn.Params) {
+					return fn.Params[idx].Type()
+				}
+			}
+		}
+		if n.Text == "spawnarg" && len(n.Args) == 1 {
+			if idx, ok := constIndex(env.eval(n.Args[0])); ok {
+				for i := len(env.post.trace) - 1; i >= 0; i-- {
+					if ev := env.post.trace[i]; ev.Kind == "spawn" {
+						if fv, ok := ev.Extra.(VFunc); ok && fv.Fn != nil && idx < len(fv.Fn.Params) {
+							return fv.Fn.Params[idx].Type()
+						}
+					}
+				}
+			}
+		}
 		if n.Text == "callarg" && len(n.Args) == 2 && n.Args[0].Op == "str" {
 			if idx, ok := constIndex(env.eval(n.Args[1])); ok {
 				if fn := env.e.findByShort(n.Args[0].Text); fn != nil && idx < len(fn.Params) {
@@ -427,6 +459,16 @@ func (env *rEnv) call(n *rNode) Value {
 			}
 			return env.fail("no such call to %s on this path", n.Args[0].Text)
 		}
+	case "spawnarg":
+		// spawnarg(i): the i-th argument (receiver = 0) of the last `go` statement on this path
+		if idx, ok := constIndex(env.eval(n.Args[0])); ok {
+			for i := len(env.post.trace) - 1; i >= 0; i-- {
+				if ev := env.post.trace[i]; ev.Kind == "spawn" && idx < len(ev.Args) {
+					return ev.Args[idx]
+				}
+			}
+		}
+		return env.fail("no go statement on this path")
 	case "calltargetnil":
 		// calltargetnil("Short", i): what the i-th (pointer) argument of the last modular call to Short pointed to was nil
 		// (a nil map/slice/pointer) when the call was made
